@@ -70,6 +70,32 @@ class CallMixin:
     # ------------------------------------------------------------ dispatch
     def call(self, fn: Node, pos, kw, st: St, fr: Frame, site, expr=None) -> Node:
         op = fn.op
+        for k_, p_ in enumerate(pos):
+            if p_.op == "Starred" and p_.args[0].op == "Phi" and self._phi_known_items(p_.args[0]):
+                # f(*t) with t selected by a branch: one call per alternative
+                ph = p_.args[0]
+                c, a, b = ph.args
+                base_pc = st.pc
+                s1, s2 = st.copy(), st.copy()
+                s1.pc = base_pc + ((c, True),)
+                s2.pc = base_pc + ((c, False),)
+                outs = []
+                for alt, sx in ((a, s1), (b, s2)):
+                    items = self.known_items(alt) if alt.op != "Phi" else None
+                    posx = list(pos[:k_]) + (list(items) if items is not None else
+                                             [self.mk("Starred", (alt,), None, site)]) + list(pos[k_ + 1:])
+                    try:
+                        outs.append(self.call(fn, posx, kw, sx, fr, site, expr))
+                    except PathEnd:
+                        outs.append(None)
+                v1, v2 = outs
+                if v1 is None and v2 is None:
+                    raise PathEnd()
+                if v1 is None or v2 is None:
+                    st.assign_from(s2 if v1 is None else s1)
+                    return v2 if v1 is None else v1
+                st.assign_from(self.merge2(c, s1, s2, base_pc))
+                return self.phi(c, v1, v2, site)
         sk = kw.get("**")
         if sk is not None and sk.op == "Phi" and self._phi_kwargs(sk):
             # f(**d) with d selected by a branch: one call per alternative
@@ -172,7 +198,8 @@ class CallMixin:
                 if set(vals) == set(fields):
                     name = fn.args[1].attr if fn.args[1].op == "Const" else "namedtuple"
                     obj = self.mk("Obj", (), (str(name), self.g.serial()), site)
-                    obj.extra = {"cls": None, "ext_bases": ["builtins.tuple"], "tuple_fields": [vals[k] for k in fields]}
+                    obj.extra = {"cls": None, "ext_bases": ["builtins.tuple"], "tuple_fields": [vals[k] for k in fields],
+                                 "record_fields": {k: vals[k] for k in fields}}
                     for k in fields:
                         st.heap[(obj.id, k)] = vals[k]
                     return obj
@@ -491,6 +518,7 @@ class CallMixin:
                     for k in fields:
                         st.heap[(obj.id, k)] = vals[k]
                     obj.extra["tuple_fields"] = [vals[k] for k in fields]
+                    obj.extra["record_fields"] = {k: vals[k] for k in fields}
                 else:
                     obj.extra["ctor_args"] = (tuple(pos), dict(kw))
             elif is_dc:
@@ -727,6 +755,23 @@ class CallMixin:
                     return v
                 if not any(k[0] in ("**", "n") for k in recv.attr):
                     return pos[1] if len(pos) > 1 else self.const(None)
+            if name == "get" and len(pos) in (1, 2) and not kw and recv.attr and \
+                    all(k[0] == "k" for k in recv.attr) and len(recv.attr) <= 8 and \
+                    self.const_key(self.res(pos[0], st)) is self.NOKEY:
+                # look-up with a key that is only known at run time in a table with known keys: the entry whose key
+                # it equals, else the default
+                keyn = self.res(pos[0], st)
+                out = pos[1] if len(pos) > 1 else self.const(None)
+                for kd, v in reversed(self.dict_items(recv)):
+                    eq = self.compare("Eq", keyn, self.key_node(kd[1], site), site)
+                    t = self.truth(eq)
+                    if t is True:
+                        out = v
+                    elif t is False:
+                        continue
+                    else:
+                        out = self.phi(eq, v, out, site)
+                return out
             if name == "pop" and len(pos) in (1, 2) and not kw and \
                     self.const_key(self.res(pos[0], st)) is not self.NOKEY and \
                     not any(k[0] in ("**", "n") for k in recv.attr):
